@@ -16,6 +16,7 @@ use taskchampion::server::{
 use taskchampion::storage::inmemory::InMemoryStorage;
 use taskchampion::{Operation, Operations, Replica, Uuid};
 
+mod faulty;
 mod sync_scn;
 mod model_scn;
 
@@ -74,6 +75,9 @@ fn main() {
 }
 
 fn run_one(scn: &Value) -> Value {
+    if let Some(arr) = scn.as_array() {
+        return Value::Array(arr.iter().map(run_one).collect());
+    }
     let kind = scn["kind"].as_str().unwrap_or("sync");
     let r = std::panic::catch_unwind(std::panic::AssertUnwindSafe(|| match kind {
         "sync" => sync_scn::run(scn),
